@@ -1,6 +1,6 @@
 (** * Offsets: the 4-byte length-offset word and [sanitize_offset]
     (ssz/src/encode.rs:139-166, ssz/src/decode.rs:75-94, 353-376, ssz/src/lib.rs:54-68). *)
-From SSZ Require Export Base.
+From SSZ Require Export Base RustSem.
 
 Definition BYTES_PER_LENGTH_OFFSET : N := 4.
 Definition MAX_LENGTH_VALUE : N := 4294967295.
@@ -19,10 +19,7 @@ Definition decode_offset (bs : bytes) : outcome N :=
 Definition read_offset (bs : bytes) : outcome N :=
   do w <- ok_or (get_range bs 0 4); decode_offset w.
 
-Definition is_some_and {A} (o : option A) (p : A -> bool) : bool :=
-  match o with Some a => p a | None => false end.
-Definition is_none {A} (o : option A) : bool :=
-  match o with Some _ => false | None => true end.
+(* [is_some_and], [is_none]: RustSem.v *)
 
 (** [sanitize_offset], branch for branch. *)
 Definition sanitize_offset (offset : N) (previous_offset : option N) (num_bytes : N)
